@@ -262,7 +262,7 @@ def group_histories(ctx):
             for op in h:
                 op[-1] = 'rpc' if rng.random() < 0.5 else 'direct'
             one(h, ':exhaustive')
-    for _ in range(ctx.n(150, 2500)):
+    for _ in range(ctx.n(300, 4000)):
         one(gen_group_history(rng), ':random')
     ctx.sample({'case': 'groups', 'ops': cases[0][1], 'impl': impls[0]})
     ctx.correspond('groups', cases, impls)
@@ -411,6 +411,8 @@ FINISH_CORPUS = [
     (dict(capture=0, channel='stderr', eev=1), [b'err'], b'last words', 'stopped'),
     (dict(capture=40, oev=1), [b'abc', b''], b'', 'exited'),
     (dict(capture=40, oev=1), [b'abc'], b'def', 'unknown'),
+    # several capture sections in one life (C11-2's story), the last one closed by the reaping read
+    (dict(capture=40, oev=1), [B + b'one' + E + b'mid' + B + b'two' + E, B + b'thr'], b'ee' + E + b'end', 'exited'),
 ]
 
 
@@ -427,7 +429,7 @@ def finish_cases(ctx):
         stream = [od.SYMBOLS[s] for s in w]
         for cut in range(len(stream) + 1):
             one(dict(capture=30, oev=1), [b''.join(stream[:cut])] if cut else [], b''.join(stream[cut:]), EXITS[(len(w) + cut) % 3], ':symbolic')
-    for _ in range(ctx.n(300, 6000)):
+    for _ in range(ctx.n(600, 10000)):
         stream = od.gen_stream(rng, tokens_weight=0.35)
         chunks = od.fragment(stream, od.gen_cuts(rng, len(stream), stream))
         pending = b''
@@ -495,3 +497,476 @@ def change_cases(ctx):
     finally:
         events.clear()
     ctx.correspond('change', [('case change backoffcode=%d' % PS.BACKOFF, ops)], [lines])
+
+
+# =============================================================================================== L2: the real main loop
+
+def make_kernel(progs, script, scratch, ready_seed=None, ready_p=0.8, fcgi=()):
+    """harness/simkernel.SimKernel, subclassed only to observe more and to serve the 'sockdir' script action"""
+    from simkernel import SimKernel
+
+    class C11Kernel(SimKernel):
+        SAMPLED = ('event', 'rpc-begin', 'rpc-answer', 'rpc-error', 'boundary')
+
+        def rec(self, kind, **kw):
+            if kind in self.SAMPLED and getattr(self, 'supervisord', None) is not None:
+                kw['groups'] = list(self.supervisord.process_groups)
+                kw['mood_now'] = self.options.mood
+            return SimKernel.rec(self, kind, **kw)
+
+        def _on_event(self, e):
+            SimKernel._on_event(self, e)
+            r = self.log[-1]
+            r['payload'] = e.payload()
+            self.evobjs.append((r, e))
+
+        def on_poll(self, rset, wset):
+            if self.passno < len(self.script):
+                for a in self.script[self.passno][1]:
+                    if a[0] == 'sockdir':
+                        if a[1]:
+                            os.makedirs(self.sockdir, exist_ok=True)
+                        else:
+                            shutil.rmtree(self.sockdir, ignore_errors=True)
+            return SimKernel.on_poll(self, rset, wset)
+
+    k = C11Kernel.__new__(C11Kernel)
+    k.evobjs = []
+    k.sockdir = os.path.join(scratch, 'l2-fcgi-sock')
+    shutil.rmtree(k.sockdir, ignore_errors=True)
+    C11Kernel.__init__(k, progs, script, scratch=scratch, ready_rng=random.Random(ready_seed) if ready_seed else None)
+    k.ready_p = ready_p
+    if fcgi:
+        from supervisor.options import FastCGIGroupConfig
+        from supervisor.datatypes import UnixStreamSocketConfig
+        for g in fcgi:
+            old = k.late_configs.get(g)
+            if old is not None:
+                k.late_configs[g] = FastCGIGroupConfig(k.options, g, old.priority, old.process_configs,
+                                                       UnixStreamSocketConfig(os.path.join(k.sockdir, g + '.sock')))
+    return k
+
+
+def l2_gen(rng):
+    """(programs, script, opts)"""
+    n = rng.randrange(2, 5)
+    progs = []
+    for i in range(n):
+        progs.append(dict(name='p%d' % i, group='g%d' % (i % 2), gprio=rng.choice([5, 999]), prio=999, autostart=rng.random() < 0.8,
+                          autorestart=rng.choice(['true', 'unexpected', 'unexpected', 'false']), startsecs=rng.choice([0, 0, 1]),
+                          startretries=rng.choice([1, 3]), exitcodes=rng.choice([[0], [0, 2]]), stopsignal=signal.SIGTERM, stopwaitsecs=2,
+                          dies_on='any', die_delay=rng.choice([0, 0, 1]), capture=rng.choice([0, 0, 40]), events=rng.random() < 0.8,
+                          redirect_stderr=rng.random() < 0.2, leaves_pipes_open=rng.random() < 0.1))
+    fcgi = []
+    if rng.random() < 0.6:
+        progs.append(dict(name='p%d' % n, group='g2', gprio=999, prio=999, autostart=rng.random() < 0.7, autorestart='unexpected',
+                          startsecs=0, startretries=3, exitcodes=[0], stopsignal=signal.SIGTERM, stopwaitsecs=1, dies_on='any', die_delay=0,
+                          capture=rng.choice([0, 40]), events=True, late=True))
+        if rng.random() < 0.6:
+            fcgi = ['g2']
+    names = [p['name'] for p in progs]
+    groups = sorted({p['group'] for p in progs})
+    gof = {p['name']: p['group'] for p in progs}
+    cap = {p['name']: p['capture'] for p in progs}
+    script, seq, rid = [], 0, 0
+    npass = rng.randrange(12, 40)
+    shutdown = rng.randrange(5, npass) if rng.random() < 0.3 else None
+    for i in range(npass):
+        acts = []
+        dt = rng.choice([256, 512, 1024, 1024, 2048, 5 * 1024])
+        r = rng.random()
+        if r < 0.05:
+            dt = rng.choice([60, 3600, 2 * 3600 + 7]) * 1024 + rng.randrange(0, 1024)
+        elif r < 0.08:
+            dt = -rng.choice([1024, 7 * 1024, 3700 * 1024])
+        for _ in range(rng.choice([0, 1, 1, 2, 3])):
+            nm = rng.choice(names)
+            ch = rng.choice(['stdout', 'stdout', 'stderr'])
+            seq += 1
+            tag = b'<%s.%s.%d>' % (nm.encode(), ch[3:].encode(), seq)
+            r = rng.random()
+            if cap[nm] and ch == 'stdout' and r < 0.2:
+                # a whole capture section (sometimes longer than capture_maxbytes), with plain output around it
+                data = rng.choice([b'', tag]) + od.DOC_BEGIN + (tag * rng.choice([1, 1, 6]))[:rng.choice([5, 30, 70])] + od.DOC_END + rng.choice([b'', b'after'])
+            elif cap[nm] and ch == 'stdout' and r < 0.5:
+                t = rng.choice([od.DOC_BEGIN, od.DOC_END])
+                c = rng.randrange(1, len(t))
+                data = rng.choice([t, t, tag + t, t[:c], t[c:], tag + t[:c]])
+            else:
+                nbytes = rng.choice([1, 3, 9, 20, 60, 300])
+                data = (tag * (nbytes // 8 + 1))[:max(nbytes, 1)] if r < 0.7 else tag
+            acts.append(('write', nm, ch, data))
+        r = rng.random()
+        if r < 0.25:
+            acts.append(('exit', rng.choice(names), rng.choice([0, 0, 1, 2, -9])))
+        elif r < 0.30:
+            acts.append(('fault', rng.choice(['fork', 'pipe']), rng.choice([errno.EAGAIN, errno.EMFILE]), 1))
+        elif r < 0.45:
+            rid += 1
+            nm = rng.choice(names)
+            acts.append(('rpc', rid, rng.choice(['supervisor.stopProcess', 'supervisor.startProcess', 'supervisor.startProcess']),
+                         ('%s:%s' % (gof[nm], nm), rng.random() < 0.3)))
+        elif r < 0.50:
+            rid += 1
+            acts.append(('rpc', rid, 'supervisor.sendRemoteCommEvent', (rng.choice(['t', 'type:x', 'a b']), rng.choice(['', 'data', 'two\nlines', 'len:5\n\n']))))
+        r = rng.random()
+        if r < 0.10:
+            rid += 1
+            acts.append(('addgroup', rid, rng.choice(groups + ['g2', 'nosuch'])))
+        elif r < 0.20:
+            rid += 1
+            acts.append(('removegroup', rid, rng.choice(groups + ['g2', 'nosuch'])))
+        elif r < 0.26:
+            rid += 1
+            acts.append(('rpc', rid, 'supervisor.stopProcessGroup', (rng.choice(groups), False)))
+        elif r < 0.32 and fcgi:
+            acts.append(('sockdir', rng.randrange(2)))
+        if shutdown is not None and i == shutdown:
+            acts.append(('sig', rng.choice([signal.SIGTERM, signal.SIGHUP])))
+        script.append((dt, acts))
+    script += [(1024, [])] * (8 if shutdown is not None else 2)
+    return progs, script, dict(ready_seed=rng.randrange(1, 1 << 30), ready_p=rng.choice([0.8, 0.5, 0.5]), fcgi=fcgi)
+
+
+def _late(name, **kw):
+    d = dict(name=name, group='g2', autostart=True, autorestart='false', startsecs=0, capture=0, events=True, late=True)
+    d.update(kw)
+    return d
+
+
+L2_CORPUS = [
+    # C11-3 under the real loop: a FastCGI group whose socket directory is missing is added (fails), the directory appears,
+    # the operator retries (succeeds), stops the group, removes it, adds it again
+    ([dict(name='p0', group='g0', autorestart='false', startsecs=0, capture=0, events=True), _late('p1')],
+     [(1024, [('addgroup', 1, 'g2')]), (1024, []), (1024, [('sockdir', 1), ('addgroup', 2, 'g2')]), (1024, []), (1024, [('addgroup', 3, 'g2')]),
+      (1024, [('rpc', 4, 'supervisor.stopProcessGroup', ('g2', False))]), (1024, []), (1024, [('removegroup', 5, 'g2')]), (1024, []),
+      (1024, [('removegroup', 6, 'g2')]), (1024, [('sockdir', 0), ('addgroup', 7, 'g2')]), (1024, []), (1024, [])],
+     dict(ready_seed=None, ready_p=0.8, fcgi=['g2'])),
+    # C11-4 under the real loop: capture on; the last bytes are written in the pass in which the child exits and poll() does not
+    # report the pipe: the read made while reaping returns them, short enough to be held back
+    ([dict(name='p0', group='g0', autorestart='false', startsecs=0, capture=40, events=True)],
+     [(1024, [('lateio', 1, 0.0), ('write', 'p0', 'stdout', b'<p0.out.1>bye'), ('exit', 'p0', 0)]), (1024, []), (1024, [])],
+     dict(ready_seed=None, ready_p=0.8, fcgi=[])),
+    ([dict(name='p0', group='g0', autorestart='true', startsecs=0, capture=40, events=True)],
+     [(1024, [('write', 'p0', 'stdout', b'x' * 30 + od.DOC_BEGIN + b'<p0.out.1>captured')]), (1024, []),
+      (1024, [('lateio', 1, 0.0), ('write', 'p0', 'stdout', od.DOC_END), ('exit', 'p0', 1)]), (1024, [('lateio', 1, 1.0)]),
+      (1024, [('write', 'p0', 'stdout', b'<p0.out.2>second life')]), (1024, []), (1024, [])],
+     dict(ready_seed=None, ready_p=0.8, fcgi=[])),
+    # clock steps under the real loop, a shutdown, a remote communication event
+    ([dict(name='p0', group='g0', autorestart='unexpected', startsecs=1, capture=0, events=True)],
+     [(1024, []), (5 * 1024, []), (3600 * 1024, [('rpc', 1, 'supervisor.sendRemoteCommEvent', ('t', 'two\nlines'))]), (1024, []), (-3700 * 1024, []), (1024, []),
+      (61 * 1024, [('sig', signal.SIGTERM)]), (1024, []), (1024, []), (1024, []), (1024, []), (1024, [])],
+     dict(ready_seed=None, ready_p=0.8, fcgi=[])),
+]
+
+
+def l2_run(ctx, progs, script, opts):
+    import l2
+    logdir = os.path.join(ctx.scratch, 'c11-l2logs')
+    shutil.rmtree(logdir, ignore_errors=True)
+    os.makedirs(logdir)
+    ps = [dict(p, logdir=logdir) for p in progs]
+    k = make_kernel(ps, script, ctx.scratch, ready_seed=opts.get('ready_seed'), ready_p=opts.get('ready_p', 0.8), fcgi=opts.get('fcgi', ()))
+    try:
+        k.run()
+    finally:
+        shutil.rmtree(k.sockdir, ignore_errors=True)
+    inp = dict(l2.scenario_input(progs, script, **opts), what='l2')
+    mon_l2(ctx, k, inp)
+    return k
+
+
+def tslice(period, ticks):
+    return (ticks // (1024 * period)) * period
+
+
+def mon_l2(ctx, k, inp):
+    ctx.count('L2-scenarios')
+    ctx.count('L2-outcome:' + str(k.outcome).split(':')[0])
+    died = (not k.outcome) or k.outcome.startswith('exception') or k.outcome == 'blocked'
+    if died:
+        ctx.count('L2-main-loop-died(C06)')
+    progs = k.programs
+    log = k.log
+    seen_kinds = set()
+
+    def bad(kind, what):
+        if kind not in seen_kinds:            # one report per kind and scenario
+            seen_kinds.add(kind)
+            ctx.violation(kind, what, inp)
+
+    evs = [r for r in log if r['kind'] == 'event']
+    for r in evs:
+        ctx.count('L2-event:' + re.sub(r'_(STDOUT|STDERR|STOPPED|STARTING|RUNNING|BACKOFF|STOPPING|EXITED|FATAL|UNKNOWN)$', '', r['name'] or 'None'))
+
+    # ---------------------------------------------------------------- (a) PROCESS_GROUP_* vs supervisord.process_groups
+    view = set()
+    calls = {}
+    for r in log:
+        kd = r['kind']
+        if kd == 'event' and r['name'] in ('PROCESS_GROUP_ADDED', 'PROCESS_GROUP_REMOVED'):
+            g = r['group']
+            if r['payload'] != 'groupname:%s\n' % g:
+                bad('l2-group-payload-wrong', '%s payload %r for group %r' % (r['name'], r['payload'], g))
+            if r.get('rpc') in calls:
+                calls[r['rpc']]['notes'].append((r['name'], g))
+            if r['name'] == 'PROCESS_GROUP_ADDED':
+                if g in view:
+                    bad('l2-group-added-announced-twice', 'PROCESS_GROUP_ADDED for %r which is announced as active already' % g)
+                if g not in r['groups']:
+                    bad('l2-group-added-announced-but-absent', 'at the PROCESS_GROUP_ADDED notification %r is not in supervisord.process_groups %r' % (g, r['groups']))
+                view.add(g)
+            else:
+                if g not in view:
+                    bad('l2-group-removed-announced-but-not-active', 'PROCESS_GROUP_REMOVED for %r which was not announced as added' % g)
+                if g in r['groups']:
+                    bad('l2-group-removed-announced-but-present', 'at the PROCESS_GROUP_REMOVED notification %r is still in supervisord.process_groups' % g)
+                view.discard(g)
+        if kd == 'rpc-begin' and r['method'].split('.')[1] in ('addProcessGroup', 'removeProcessGroup'):
+            calls[r['id']] = dict(method=r['method'].split('.')[1], name=r['args'][0], before=set(r['groups']), notes=[])
+        lied_here = kd == 'event' and r['name'] in ('PROCESS_GROUP_ADDED', 'PROCESS_GROUP_REMOVED') and \
+            (r['group'] in r['groups']) != (r['name'] == 'PROCESS_GROUP_ADDED')      # already reported above; judged again at the next record
+        if 'groups' in r and view != set(r['groups']) and not lied_here:
+            bad('l2-group-announced-but-not-in-table' if view - set(r['groups']) else 'l2-group-in-table-but-not-announced',
+                'at a %s record (t=%d): notifications say the active groups are %r, supervisord.process_groups has %r' % (kd, r['t'], sorted(view), sorted(r['groups'])))
+            view = set(r['groups'])
+        if kd in ('rpc-answer', 'rpc-error') and r.get('id') in calls:
+            c = calls.pop(r['id'])
+            ok = kd == 'rpc-answer' and r.get('value') is True
+            want = [('PROCESS_GROUP_ADDED' if c['method'] == 'addProcessGroup' else 'PROCESS_GROUP_REMOVED', c['name'])] if ok else []
+            if c['notes'] != want:
+                bad('l2-group-call-vs-notifications', '%s(%r) %s, notifications raised by the call: %r' % (
+                    c['method'], c['name'], 'answered true' if ok else 'failed (%r)' % (r.get('fault', r.get('exc')),), c['notes']))
+            ctx.count('L2-group-call:%s:%s' % (c['method'], 'ok' if ok else ('fault' if kd == 'rpc-answer' else 'error')))
+
+    # ---------------------------------------------------------------- ground truth about children, from the kernel's log
+    gens = {}             # name -> [generation]; generation = dict(pid, read={ch: bytes}, waited_at, exit_announced_at, sts)
+    bypid = {}
+    pipe_of = {}          # pipe id -> (generation, channel)
+    for i, r in enumerate(log):
+        kd = r['kind']
+        if kd == 'fork' and r['name'] in progs:
+            g = dict(pid=r['pid'], name=r['name'], read={'stdout': bytearray(), 'stderr': bytearray()}, waited_at=None, exit_at=None, sts=None, forked_at=i)
+            gens.setdefault(r['name'], []).append(g)
+            bypid[r['pid']] = g
+            c = k.children.get(r['pid'])
+            if c is not None and c.stdout is not None:
+                pipe_of[c.stdout.id] = (g, 'stdout')
+                if c.stderr is not None and c.stderr is not c.stdout:
+                    pipe_of[c.stderr.id] = (g, 'stderr')
+        elif kd == 'read' and r['pipe'] in pipe_of:
+            g, ch = pipe_of[r['pipe']]
+            g['read'][ch] += r['data']
+        elif kd == 'wait' and r.get('pid') in bypid:
+            bypid[r['pid']]['waited_at'] = i
+            bypid[r['pid']]['sts'] = r['sts']
+    gof = {p['name']: p.get('group', p['name']) for p in progs.values()}
+
+    def plain_sections(g, ch, upto=None):
+        data = bytes(g['read'][ch])
+        if ch == 'stdout' and progs[g['name']].get('capture'):
+            plain, sections, _ = od.ref_split(data)
+            return plain, sections
+        return data, []
+
+    # ---------------------------------------------------------------- (c) PROCESS_STATE_* vs the kernel's child table
+    last = {}             # 'group:name' -> code of the state last announced
+    last_tries = {}
+    alive = {}            # name -> pid of the child the kernel holds for it (forked, not yet returned by wait)
+    reaping = None        # generation whose wait record is the latest "activity" record: finish() is running for it
+    for i, r in enumerate(log):
+        kd = r['kind']
+        if kd == 'fork' and r['name'] in progs:
+            alive[r['name']] = r['pid']; reaping = None
+        elif kd == 'wait':
+            reaping = bypid.get(r.get('pid'))
+            if reaping is not None and alive.get(reaping['name']) == reaping['pid']:
+                del alive[reaping['name']]
+        elif kd in ('kill', 'rpc-begin', 'poll', 'boundary'):
+            if kd != 'boundary':
+                reaping = None
+        if kd == 'event' and r['name'] == 'PROCESS_GROUP_ADDED':
+            for key in [x for x in last if x.split(':')[0] == r['group']]:
+                del last[key]; last_tries.pop(key, None)
+        if kd == 'event' and r['name'].startswith('PROCESS_STATE_'):
+            to = r['name'][len('PROCESS_STATE_'):]
+            nm, grp = r['process'], r['group']
+            key = '%s:%s' % (grp, nm)
+            h = head_of(r['payload'])
+            if h.get('processname') != nm or h.get('groupname') != grp or gof.get(nm) != grp:
+                bad('l2-state-event-wrong-process', '%s payload %r for process %s of group %s' % (r['name'], r['payload'], nm, gof.get(nm)))
+            frm = last.get(key, 0)
+            if h.get('from_state') != ST[frm]:
+                bad('l2-state-chain-broken', '%s for %s says from_state:%s, the state last announced for it was %s' % (r['name'], key, h.get('from_state'), ST[frm]))
+            last[key] = CODE[to]
+            if 'pid' in h:
+                inflight = reaping if (reaping is not None and reaping['name'] == nm) else None
+                want = inflight['pid'] if inflight is not None else alive.get(nm, 0)
+                if h['pid'] != str(want):
+                    bad('l2-state-event-wrong-pid', '%s for %s carries pid:%s; the kernel\'s child of that process at that moment has pid %d' % (r['name'], key, h['pid'], want))
+            if to == 'EXITED' and reaping is not None and reaping['name'] == nm and reaping['sts'] is not None:
+                sts = reaping['sts']
+                es = (sts >> 8) & 0xff if sts & 0x7f == 0 else -1
+                want = 1 if es in progs[nm].get('exitcodes', [0]) else 0
+                if h.get('expected') != str(want):
+                    bad('l2-exited-expected-flag-wrong', 'PROCESS_STATE_EXITED for %s (wait status %d, exitcodes %r) says expected:%s' % (key, sts, progs[nm].get('exitcodes', [0]), h.get('expected')))
+            if 'tries' in h:
+                if to == 'BACKOFF' and key in last_tries and h['tries'] != str(last_tries[key] + 1):
+                    bad('l2-backoff-tries-not-the-value-at-the-change', 'PROCESS_STATE_BACKOFF for %s says tries:%s after STARTING with tries:%d' % (key, h['tries'], last_tries[key]))
+                last_tries[key] = int(h['tries'])
+            if reaping is not None and reaping['name'] == nm and reaping['exit_at'] is None and to in ('EXITED', 'STOPPED', 'BACKOFF'):
+                reaping['exit_at'] = i
+        if kd == 'boundary' and not (died and r is log[-1]):
+            for full, (st, pid) in r['procs'].items():
+                if last.get(full, 0) != st:
+                    bad('l2-state-changed-without-notification', '%s is reported %s at the end of pass %d; the state last announced is %s' % (
+                        full, ST.get(st, st), r['passno'], ST[last.get(full, 0)]))
+                    last[full] = st
+
+    # ---------------------------------------------------------------- (b) PROCESS_LOG / PROCESS_COMMUNICATION vs what each child wrote
+    for nm, p in progs.items():
+        for ch in ('stdout', 'stderr'):
+            mine = [(i, r) for i, r in enumerate(log) if r['kind'] == 'event' and r['name'].startswith('PROCESS_LOG') and r['process'] == nm and r['channel'] == ch]
+            glist = gens.get(nm, [])
+            if not p.get('events'):
+                if mine:
+                    bad('l2-output-event-while-disabled', 'PROCESS_LOG_%s for %s although events are disabled' % (ch.upper(), nm))
+                continue
+            gi, pos = 0, 0
+            announced = {}
+            for i, r in mine:
+                d = r['data']
+                while gi < len(glist) and plain_sections(glist[gi], ch)[0][pos:pos + len(d)] != d:
+                    gi += 1; pos = 0
+                if gi == len(glist):
+                    bad('l2-output-event-data-not-what-was-read', 'PROCESS_LOG_%s for %s announces %r, which is not the next output read from any of its children' % (ch.upper(), nm, d[:60]))
+                    break
+                g = glist[gi]
+                pos += len(d)
+                announced[g['pid']] = pos
+                check_output_event(bad, r, i, g, nm, gof[nm], ch, 'plog')
+            if not died:
+                for g in glist:
+                    if g['exit_at'] is not None or (g['waited_at'] is not None):
+                        want = plain_sections(g, ch)[0]
+                        if announced.get(g['pid'], 0) < len(want):
+                            bad('l2-output-read-but-not-announced-at-reap', '%s pid %d was reaped; of the %d bytes read from its %s outside capture sections, %d were announced; missing %r' % (
+                                nm, g['pid'], len(want), ch, announced.get(g['pid'], 0), want[announced.get(g['pid'], 0):][:60]))
+        comm = [(i, r) for i, r in enumerate(log) if r['kind'] == 'event' and r['name'].startswith('PROCESS_COMMUNICATION') and r['process'] == nm]
+        capmax = p.get('capture') or 0
+        allsecs = [(g, s) for g in gens.get(nm, []) for s in plain_sections(g, 'stdout')[1]]
+        nreaped = sum(1 for g, s in allsecs if g['waited_at'] is not None)
+        if len(comm) > len(allsecs) or (not died and len(comm) < nreaped):
+            bad('l2-comm-events-not-one-per-section', '%s: %d PROCESS_COMMUNICATION notifications, %d closed capture sections read (%d from reaped children)' % (nm, len(comm), len(allsecs), nreaped))
+        for (i, r), (g, s) in zip(comm, allsecs):
+            if not s.endswith(r['data']) or len(r['data']) > capmax or (len(s) <= capmax and r['data'] != s):
+                bad('l2-comm-event-data-wrong', '%s: event data %r for the enclosed bytes %r (capture_maxbytes=%d)' % (nm, r['data'][:40], s[:40], capmax))
+                break
+            check_output_event(bad, r, i, g, nm, gof[nm], 'stdout', 'comm')
+
+    # ---------------------------------------------------------------- (d) SUPERVISOR_STATE_CHANGE_* vs the mood
+    running = [i for i, r in enumerate(log) if r['kind'] == 'event' and r['name'] == 'SUPERVISOR_STATE_CHANGE_RUNNING']
+    first_poll = next((i for i, r in enumerate(log) if r['kind'] == 'poll'), len(log))
+    if len(running) != 1 or running[0] > first_poll:
+        bad('l2-running-not-announced-once-at-start', '%d SUPERVISOR_STATE_CHANGE_RUNNING notifications (positions %r, first poll at %d)' % (len(running), running, first_poll))
+    stopping = [(i, r) for i, r in enumerate(log) if r['kind'] == 'event' and r['name'] == 'SUPERVISOR_STATE_CHANGE_STOPPING']
+    for i, r in stopping:
+        if r['payload'] != '':
+            bad('l2-supervisor-state-payload-not-empty', repr(r['payload']))
+        if r['mood_now'] >= 1:
+            bad('l2-stopping-announced-while-running', 'SUPERVISOR_STATE_CHANGE_STOPPING while the daemon state is RUNNING (mood %d)' % r['mood_now'])
+    if len(stopping) > 1:
+        bad('l2-stopping-announced-twice', '%d SUPERVISOR_STATE_CHANGE_STOPPING notifications' % len(stopping))
+    first_low = next((i for i, r in enumerate(log) if r['kind'] == 'boundary' and r['mood'] < 1 and not (died and r is log[-1])), None)
+    if first_low is not None and not (stopping and stopping[0][0] < first_low):
+        bad('l2-stopping-not-announced', 'the daemon state is below RUNNING at the end of pass %d and no SUPERVISOR_STATE_CHANGE_STOPPING was notified before' % log[first_low]['passno'])
+
+    # ---------------------------------------------------------------- (e) TICK_* vs the clock of successive passes
+    segs, cur = [], None
+    for r in log:
+        if r['kind'] == 'poll':
+            cur = [r['t'], []]
+            segs.append(cur)
+        elif cur is not None and r['kind'] == 'event' and (r['name'] or '').startswith('TICK_'):
+            cur[1].append(r)
+    if died and segs:
+        segs.pop()
+    prev = None
+    for t, ticks in segs:
+        want = [] if prev is None else [('TICK_%d' % per, tslice(per, t)) for per in (5, 60, 3600) if tslice(per, t) != tslice(per, prev)]
+        have = [(r['name'], r['when']) for r in ticks]
+        if have != want:
+            bad('l2-tick-not-on-slice-change', 'pass at clock %d/1024 (previous pass %r/1024): notified %r, slices that changed %r' % (t, prev, have, want))
+        for r in ticks:
+            if r['payload'] != 'when:%d' % r['when']:
+                bad('l2-tick-payload-wrong', repr(r['payload']))
+        ctx.count('L2-tick-passes')
+        prev = t
+
+    # ---------------------------------------------------------------- (f) REMOTE_COMMUNICATION vs the sendRemoteCommEvent calls
+    sent = {r['id']: r['args'] for r in log if r['kind'] == 'rpc-begin' and r['method'].endswith('sendRemoteCommEvent')}
+    answered = {r['id'] for r in log if r['kind'] == 'rpc-answer' and r.get('id') in sent and r.get('value') is True}
+    rc = [r for r in evs if r['name'] == 'REMOTE_COMMUNICATION']
+    for cid, (t_, d_) in sent.items():
+        got = [r['payload'] for r in rc if r.get('rpc') == cid]
+        if cid in answered and got != ['type:%s\n%s' % (t_, d_)]:
+            bad('l2-remote-comm-not-one-to-one', 'sendRemoteCommEvent(%r, %r) raised %r' % (t_, d_, got))
+    if any(r.get('rpc') not in sent for r in rc):
+        bad('l2-remote-comm-without-call', 'a REMOTE_COMMUNICATION notification outside any sendRemoteCommEvent call')
+
+    # ---------------------------------------------------------------- rendered again later, every payload is unchanged
+    for r, e in k.evobjs:
+        try:
+            again = e.payload()
+        except Exception as ex:
+            again = 'raised %r' % (ex,)
+        if again != r['payload']:
+            bad('l2-payload-changed-after-notification', '%s: %r at notification time, %r when rendered after the run' % (r['name'], r['payload'][:80], again[:80]))
+            break
+
+
+def check_output_event(bad, r, i, g, nm, grp, ch, kind):
+    """one PROCESS_LOG / PROCESS_COMMUNICATION notification against the child generation g that wrote its bytes"""
+    h = head_of(r['payload'])
+    body = r['payload'].split('\n', 1)[1] if '\n' in r['payload'] else None
+    if h.get('pid') != str(g['pid']) or r['pid'] != g['pid']:
+        bad('l2-output-event-wrong-pid', '%s for %s announces %r as written by pid:%s; it was written by the child with pid %d' % (r['name'], nm, r['data'][:40], h.get('pid'), g['pid']))
+    if h.get('processname') != nm or h.get('groupname') != grp or (kind == 'plog' and h.get('channel') != ch):
+        bad('l2-output-event-wrong-process', '%s payload header %r for output of %s (group %s) on %s' % (r['name'], r['payload'].split('\n', 1)[0], nm, grp, ch))
+    if body is None or body.encode('utf-8', 'surrogateescape') != r['data']:
+        bad('l2-output-payload-body-differs', '%s payload body %r for data %r' % (r['name'], (body or '')[:40], r['data'][:40]))
+    if g['exit_at'] is not None and i > g['exit_at']:
+        bad('l2-output-announced-after-exit-notification', '%s for %r written by %s pid %d is notified after the PROCESS_STATE notification of that child\'s exit' % (r['name'], r['data'][:40], nm, g['pid']))
+
+
+def l2_all(ctx):
+    rng = ctx.rng
+    for progs, script, opts in L2_CORPUS:
+        l2_run(ctx, progs, script, opts)
+        ctx.case_done(('L2', repr(script)), True)
+    for _ in range(ctx.n(300, 5000)):
+        progs, script, opts = l2_gen(rng)
+        k = l2_run(ctx, progs, script, opts)
+        ctx.case_done(('L2', repr(script), repr(opts)), True)
+        ctx.count('L2-forks', sum(1 for r in k.log if r['kind'] == 'fork'))
+        ctx.count('L2-child-writes', sum(1 for r in k.log if r['kind'] == 'childwrite'))
+    ctx.sample({'l2-programs': [p['name'] + '@' + p['group'] for p in progs], 'l2-script-head': [[dt, [list(map(str, a)) for a in acts]] for dt, acts in script[:4]]})
+
+
+def replay(ctx, inp):
+    import l2
+    if inp['what'] == 'group-history':
+        o, l = group_history(ctx, inp['history'])
+        ctx.correspond('groups', [('case groups', o)], [l])
+    elif inp['what'] == 'finish':
+        unhex = lambda h: b'' if h == '-' else bytes.fromhex(h)
+        c, o, l = finish_case(ctx, od.Cfg(**inp['cfg']), [unhex(h) for h in inp['chunks']], unhex(inp['pending']), inp['how'])
+        ctx.correspond('finish', [(c, o)], [l])
+    elif inp['what'] == 'change':
+        change_cases(ctx)
+    elif inp['what'] == 'l2':
+        progs, script = l2.scenario_from_input(inp)
+        l2_run(ctx, progs, script, inp['opts'])
+    else:
+        return False
+    return True
